@@ -1950,6 +1950,11 @@ func (p *Parser) parseExpressionSuffix(left IExpr, prec, precLeft OpPrec) IExpr 
 			return nil
 		}
 
+		if p.prevLT && precLeft <= OpAssign && p.tt != CommaToken {
+			// only a comma can continue an assignment, yield or arrow function expression: a line break in front of any other token ends the statement (automatic semicolon insertion), e.g. `x = () => {}` followed by `(a || b).c()` on the next line
+			return left
+		}
+
 		switch tt := p.tt; tt {
 		case EqToken, MulEqToken, DivEqToken, ModEqToken, ExpEqToken, AddEqToken, SubEqToken, LtLtEqToken, GtGtEqToken, GtGtGtEqToken, BitAndEqToken, BitXorEqToken, BitOrEqToken, AndEqToken, OrEqToken, NullishEqToken:
 			if OpAssign < prec {
